@@ -90,6 +90,25 @@ PIPELINES = [
 ]
 
 
+_D = ["disparity", {"disparity_method": "wta"}]
+# (name, pipeline, verdict of a pristine process): parameter domains differ from one step class to the next
+PROBES = [
+    ("census window 7", dict([["matching_cost", {"matching_cost_method": "census", "window_size": 7}], _D]), False),
+    ("census window 1", dict([["matching_cost", {"matching_cost_method": "census", "window_size": 1}], _D]), False),
+    ("census window 5", dict([["matching_cost", {"matching_cost_method": "census", "window_size": 5}], _D]), True),
+    ("sad window 4", dict([["matching_cost", {"matching_cost_method": "sad", "window_size": 4}], _D]), False),
+    ("zncc window 7", dict([["matching_cost", {"matching_cost_method": "zncc", "window_size": 7}], _D]), True),
+    ("ssd subpix 3", dict([["matching_cost", {"matching_cost_method": "ssd", "window_size": 3, "subpix": 3}], _D]), False),
+    ("median filter_size 4", dict([["matching_cost", {"matching_cost_method": "sad", "window_size": 3}], _D,
+                                   ["filter", {"filter_method": "median", "filter_size": 4}]]), False),
+    ("median_for_intervals filter_size 5", dict([["matching_cost", {"matching_cost_method": "sad", "window_size": 3}],
+                                                 ["cost_volume_confidence", {"confidence_method": "interval_bounds"}], _D,
+                                                 ["filter", {"filter_method": "median_for_intervals", "filter_size": 5}]]), True),
+    ("bilateral sigma_space 0", dict([["matching_cost", {"matching_cost_method": "sad", "window_size": 3}], _D,
+                                      ["filter", {"filter_method": "bilateral", "sigma_space": 0.0}]]), False),
+]
+
+
 def make_pair(seedval: int):
     rng = np.random.RandomState(seedval)
     H, W = 32 + seedval % 5, 40 + seedval % 7
@@ -220,6 +239,17 @@ def replay_history(ctx: Ctx, p: dict) -> None:
                 ctx.violation("C18/products-differ-between-runs", f"pipeline {s['pipe']} pair {pseed} after history {p['ops']}")
             seen.setdefault(key, full)
             runs.append((slot, key))
+    # ---- whatever was checked or run before in this process, a fresh machine gives the verdicts a pristine process gives
+    l0, r0 = drive.make_inputs(*make_pair(0)[:2], (-3, 2), *make_pair(0)[2:])
+    for name, pipe_, expect in PROBES:
+        try:
+            drive.check_pipeline(PandoraMachine(), copy.deepcopy(pipe_), l0, r0)
+            accepted = True
+        except Exception:  # noqa: BLE001
+            accepted = False
+        if accepted != expect:
+            ctx.violation("C18/check-verdict-depends-on-history", f"{name}: {'accepted' if accepted else 'refused'} after history "
+                                                                  f"{p['ops']}, a pristine process {'accepts' if expect else 'refuses'} it")
     # non-trivial: two runs of one (pipeline, pair) separated by an operation on another machine
     nt = False
     ops = [o for o in p["ops"] if o[0] != "new"]
